@@ -14,7 +14,7 @@ from . import compdb
 
 VERIF = os.path.dirname(os.path.dirname(os.path.abspath(__file__)))
 TOOL = os.path.join(VERIF, "tools", "zvbi-facts")
-CACHE = os.path.join(VERIF, ".cache", "facts")
+CACHE = os.environ.get("ZSA_CACHE") or os.path.join(VERIF, ".cache", "facts")
 
 
 class AnalysisBroken(Exception):
@@ -333,4 +333,9 @@ class Program:
 
 
 def load(units=None, overrides=None):
-    return Program(extract(units, overrides=overrides))
+    from . import normalize
+    facts = extract(units, overrides=overrides)
+    log = normalize.apply(facts)
+    P = Program(facts)
+    P.normalized = log.items
+    return P
